@@ -9,6 +9,8 @@ Directives (each at the start of a line):
 
   //@unit NAME                      //@serves C13 C03          //@level proved-unbounded
   //@include prelude/NAME.vinc      (textual include of another spec file, directives allowed)
+  //@ifdef NAME / //@ifndef NAME / //@else / //@endif   conditional spec text; `--define NAME` (check.py: known-finding witness variants,
+                                    e.g. the unrestricted claim that a recorded defect still refutes)
   //@item FILE :: SEG [:: SEG]      copy a struct/enum/const/type/fn item verbatim (attributes, docs, `pub` dropped)
   //@fn FILE :: SEG :: fn NAME      copy a function; the following ops apply until //@end
       //@name NEW                   emit the function under another name (R-default instantiation etc.)
@@ -71,7 +73,7 @@ def parse_pat(s):
     m = re.match(r'^"((?:[^"\\]|\\.)*)"\s*(?:#(\d+|all))?\s*(.*)$', s, re.S)
     if not m:
         raise Undecided("bad-pattern %r" % s)
-    pat = m.group(1).replace('\\"', '"').replace("\\\\", "\\")
+    pat = m.group(1).replace('\\"', '"').replace("\\n", "\n").replace("\\\\", "\\")   # \n: a pattern may span lines (same escapes as the replacement text)
     k = m.group(2)
     k = 1 if k is None else (k if k == "all" else int(k))
     return pat, k, m.group(3)
@@ -422,7 +424,11 @@ class FnUnit:
         li, col = self.pos_to_line(bo)
         l = self.lines[li]
         head, tail = l.text[:col], l.text[col:]
-        self.lines[li:li + 1] = [Line(head, l.origin)] + self.spec_lines(block, origin) + [Line(tail, l.origin)]
+        mark = lambda s: [Line("// @@SPEC-%s@@ %s" % (s, self.emitted_name()), ("spec", "canary", 0))]
+        self.lines[li:li + 1] = [Line(head, l.origin)] + mark("BEGIN") + self.spec_lines(block, origin) + mark("END") + [Line(tail, l.origin)]
+
+    def emitted_name(self):
+        return getattr(self, "newname", None) or self.fname
 
     def op_attr(self, block, origin):
         self.lines[0:0] = self.spec_lines(block, origin)
@@ -592,7 +598,7 @@ def read_spec(path):
 
 BLOCK_OPS = {"attr", "spec", "entry", "exit", "loop", "before", "afterline", "after"}
 
-def assemble(unit_path, repo):
+def assemble(unit_path, repo, defines=()):
     """returns dict(meta, lines=[Line], log=[..], functions=[{label, sha, ...}])"""
     meta = {"unit": None, "serves": [], "level": "proved-unbounded", "notes": []}
     out = []
@@ -603,6 +609,23 @@ def assemble(unit_path, repo):
     def process(path, depth=0):
         lines = read_spec(path)
         rel = os.path.relpath(path, VERIF)
+        # conditional text: //@ifdef NAME / //@ifndef NAME / //@else / //@endif (used for known-finding witness variants)
+        kept, stack = [], []
+        for ln, raw in enumerate(lines):
+            st = raw.strip()
+            if st.startswith("//@ifdef ") or st.startswith("//@ifndef "):
+                name = st.split(None, 1)[1].strip()
+                cond = (name in defines) if st.startswith("//@ifdef ") else (name not in defines)
+                stack.append(cond); kept.append("")
+            elif st == "//@else" and stack:
+                stack[-1] = not stack[-1]; kept.append("")
+            elif st == "//@endif" and stack:
+                stack.pop(); kept.append("")
+            else:
+                kept.append(raw if all(stack) else "")
+        if stack:
+            raise Undecided("spec-syntax %s: unbalanced //@ifdef" % rel)
+        lines = kept
         i = 0
         while i < len(lines):
             raw = lines[i]
@@ -618,6 +641,8 @@ def assemble(unit_path, repo):
             elif d == "serves": meta["serves"] = arg.split()
             elif d == "level": meta["level"] = arg.strip()
             elif d == "note": meta["notes"].append(arg.strip())
+            elif d == "unreachable-exit": meta.setdefault("unreachable_exit", []).extend(arg.split())   # exits (fn#retK / fn#tail) that are legitimately unreachable
+            elif d == "verus-flags": meta.setdefault("verus_flags", []).extend(arg.split())   # extra verus command-line flags for this unit
             elif d == "include":
                 process(os.path.join(os.path.dirname(path), arg.strip()), depth + 1)
             elif d == "item":
@@ -703,8 +728,16 @@ def assemble(unit_path, repo):
                 if not is_external:
                     # vacuity-canary marker: first thing in the body (a comment; replaced by `assert(false)` in the canary run)
                     fu.op_entry(["// @@CANARY-ENTRY@@ " + (newname or fu.fname)], (rel, fu.specline))
+                fu.newname = newname
+                specblock = []
+                specorigin = (rel, fu.specline)
                 for o in ops:
-                    if o[0] == "spec": fu.op_spec(o[2], (rel, o[3] + 1))
+                    if o[0] == "spec":
+                        specblock += o[2]; specorigin = (rel, o[3] + 1)
+                if not is_external:
+                    fu.op_spec(specblock, specorigin)     # always emitted (possibly empty) so that the exit canary finds the place
+                elif specblock:
+                    fu.op_spec(specblock, specorigin)
                 for o in ops:
                     if o[0] == "attr": fu.op_attr(o[2], (rel, o[3] + 1))
                 known = {"replace", "replace?", "sigreplace", "assert2panic", "idxloop", "ret", "name", "before", "afterline", "after",
@@ -807,14 +840,14 @@ def classify_diag(d):
         return "rlimit"
     return "error"
 
-def check_unit(unit, repo="/repo", workdir=None, rlimit=None, keep=False, canary=True):
+def check_unit(unit, repo="/repo", workdir=None, rlimit=None, keep=False, canary=True, defines=()):
     """Assemble and verify one unit.  Returns a result dict."""
     unit_path = unit if os.path.isabs(unit) else os.path.join(SPECDIR, unit + ".vspec")
     t0 = time.time()
     r = {"unit": os.path.splitext(os.path.basename(unit_path))[0], "backend": "verus", "status": None, "failed": [], "log": [],
          "functions": [], "obligations": 0, "discharged": 0, "trusted_base": [], "smt_ms": 0}
     try:
-        asm = assemble(unit_path, repo)
+        asm = assemble(unit_path, repo, defines)
     except Undecided as e:
         r["status"] = "undecided"; r["reason"] = str(e); r["wall_s"] = time.time() - t0
         return r
@@ -826,13 +859,13 @@ def check_unit(unit, repo="/repo", workdir=None, rlimit=None, keep=False, canary
     r["log"] = asm["log"]; r["functions"] = asm["functions"]
     workdir = workdir or os.path.join("/tmp", "verif-vx-%d" % os.getpid())
     os.makedirs(workdir, exist_ok=True)
-    fpath = os.path.join(workdir, meta["unit"] + ".rs")
+    fpath = os.path.join(workdir, meta["unit"] + ("__" + "_".join(defines) if defines else "") + ".rs")
     text = "\n".join(l.text for l in asm["lines"]) + "\n"
     open(fpath, "w").write(text)
     r["assembled"] = fpath
     r["assembled_sha256_16"] = hashlib.sha256(text.encode()).hexdigest()[:16]
     r["trusted_base"] = trusted_scan(asm["lines"])
-    res = run_verus(fpath, rlimit=rlimit)
+    res = run_verus(fpath, rlimit=rlimit, extra=meta.get("verus_flags"))
     r["checker_cmd"] = res.get("cmd")
     if res.get("timeout"):
         r["status"] = "undecided"; r["reason"] = "verus-timeout"; r["wall_s"] = time.time() - t0
@@ -928,7 +961,7 @@ def check_unit(unit, repo="/repo", workdir=None, rlimit=None, keep=False, canary
                 cl[idx] = Line("proof { assert(false); } // CANARY " + fname, ("spec", "canary", 0))
         cpath = os.path.join(workdir, meta["unit"] + "__canary.rs")
         open(cpath, "w").write("\n".join(l.text for l in cl) + "\n")
-        cres = run_verus(cpath, rlimit=rlimit)
+        cres = run_verus(cpath, rlimit=rlimit, extra=meta.get("verus_flags"))
         hit = set()
         ctext = open(cpath).read().split("\n")
         for d in cres.get("diags", []):
@@ -949,6 +982,147 @@ def check_unit(unit, repo="/repo", workdir=None, rlimit=None, keep=False, canary
         if not keep:
             try: os.remove(cpath)
             except OSError: pass
+    # ---- exit canary: `assert(false)` in front of every `return` and of the tail of every extracted function must FAIL
+    # (an exit where it verifies is unreachable or is checked in an inconsistent solver context -- this guard was added after
+    # a Z3 `smt.arith.solver=2` unsoundness was observed on `x / nz.get()`, see DESIGN.md section 8)
+    if canary and r["status"] == "pass":
+        text_lines = [l.text for l in lines]
+        edits = []      # (line_idx, col_start, col_end_or_None, replacement) applied bottom-up
+        exits = []
+        for (ra, rb, label, fname) in asm["fn_regions"]:
+            ent = next((i for i in range(ra, rb + 1) if text_lines[i].strip().startswith("// @@CANARY-ENTRY@@")), None)
+            if ent is None:
+                continue
+            body = "\n".join(text_lines[ent + 1:rb + 1])
+            try:
+                s = Src("{" + body)      # re-open the body brace so that brackets balance
+            except Exception:
+                continue
+            off = -1                     # positions in s.text are shifted by the added "{"
+            toks = s.toks
+            close = s.match(0)
+            def pos2lc(pos):
+                pos += off
+                pre = body[:pos]
+                return ent + 1 + pre.count("\n"), pos - (pre.rfind("\n") + 1)
+            # ghost regions (proof blocks) are skipped
+            skip_until = -1
+            n_exit = 0
+            for i, tk in enumerate(toks):
+                if i <= skip_until or tk[0] != "id":
+                    continue
+                w = s.s(i)
+                if w == "proof":
+                    nx = s.next_sig(i + 1)
+                    if nx is not None and s.s(nx) == "{":
+                        skip_until = s.match(nx)
+                    continue
+                if w == "return":
+                    j = i + 1
+                    endpos = None
+                    while j < close:
+                        tj = toks[j]
+                        if tj[0] == "p":
+                            ch = s.text[tj[1]]
+                            if ch in "([{": j = s.match(j)
+                            elif ch in ";,": endpos = tj[1]; break
+                            elif ch in ")]}": endpos = tj[1]; break
+                        j += 1
+                    if endpos is None:
+                        endpos = toks[close][1]
+                    n_exit += 1
+                    tag = "%s#ret%d" % (fname, n_exit)
+                    l1, c1 = pos2lc(tk[1]); l2, c2 = pos2lc(endpos)
+                    edits.append((l2, c2, " }"))
+                    edits.append((l1, c1, "{ proof { if verif_canary(%d) { assert(false); /*CANARY-EXIT %s*/ } } " % (len(exits), tag)))
+                    exits.append(tag)
+            # tail: before the last top-level statement, and at the very end when the body falls off its end
+            try:
+                # top-level statements of the body
+                i = 1; stmts = []
+                while True:
+                    i = s.next_sig(i, close)
+                    if i is None: break
+                    start = i; j = i; w = s.s(i)
+                    if toks[i][0] == "life":
+                        j = s.next_sig(i + 1, close); j = s.next_sig(j + 1, close); w = s.s(j)
+                    blocklike = False
+                    if w in ("if", "match", "while", "for", "loop", "unsafe", "{", "proof"):
+                        while True:
+                            while j < close and not (toks[j][0] == "p" and s.text[toks[j][1]] == "{"):
+                                if toks[j][0] == "p" and s.text[toks[j][1]] in "([": j = s.match(j)
+                                j += 1
+                            if j >= close: break
+                            j = s.match(j)
+                            nx = s.next_sig(j + 1, close)
+                            if nx is not None and s.s(nx) == "else":
+                                j = nx + 1; continue
+                            break
+                        nx = s.next_sig(j + 1, close)
+                        if not (nx is not None and s.s(nx) in (".", "?", ";", "as")):
+                            stmts.append((start, min(j, close - 1), True, w)); i = j + 1; continue
+                    semi = False
+                    while j < close:
+                        tj = toks[j]
+                        if tj[0] == "p":
+                            ch = s.text[tj[1]]
+                            if ch in "([{": j = s.match(j)
+                            elif ch == ";": semi = True; break
+                        j += 1
+                    stmts.append((start, min(j, close - 1), semi, w)); i = j + 1
+                real = [st for st in stmts if st[3] != "proof"]
+                if real:
+                    last = real[-1]
+                    tag = "%s#tail" % fname
+                    l1, c1 = pos2lc(toks[last[0]][1])
+                    edits.append((l1, c1, "proof { if verif_canary(%d) { assert(false); /*CANARY-EXIT %s*/ } } " % (len(exits), tag)))
+                    exits.append(tag)
+            except Exception:
+                pass
+        if exits:
+            cl = list(text_lines)
+            for (li, col, ins) in sorted(edits, key=lambda e: (e[0], e[1]), reverse=True):
+                cl[li] = cl[li][:col] + ins + cl[li][col:]
+            # each canary is guarded by a distinct uninterpreted flag so that a refuted canary does not poison the rest of the path
+            vi = next((i for i, x in enumerate(cl) if re.match(r"^\s*verus!\s*\{", x)), None)
+            if vi is not None:
+                cl[vi] = cl[vi] + " uninterp spec fn verif_canary(k: int) -> bool;"
+            xpath = os.path.join(workdir, meta["unit"] + "__exitcanary.rs")
+            open(xpath, "w").write("\n".join(cl) + "\n")
+            xres = run_verus(xpath, rlimit=rlimit, extra=(meta.get("verus_flags") or []))
+            xjs = xres.get("json") or {}
+            xvr = xjs.get("verification-results", {})
+            xtext = open(xpath).read().split("\n")
+            hit = set()
+            for d in xres.get("diags", []):
+                if d.get("level") == "error" and "assertion failed" in d.get("message", ""):
+                    for sp in d.get("spans", []):
+                        lno = sp["line_start"]
+                        if 1 <= lno <= len(xtext):
+                            # the failing assert is the one whose column range holds the span
+                            seg = xtext[lno - 1]
+                            for m in re.finditer(r"assert\(false\); /\*CANARY-EXIT ([^*]+)\*/", seg):
+                                if m.start() <= sp["column_start"] - 1 <= m.end():
+                                    hit.add(m.group(1))
+            if xres.get("json") is None or xvr.get("encountered-vir-error") or (xvr.get("encountered-error") and not xvr.get("errors")):
+                r["exit_canary"] = {"tool_error": True, "detail": (xres.get("stderr") or "")[-600:]}
+                r["status"] = "undecided"; r["reason"] = "exit-canary-tool-error: the exit-canary variant was not accepted by rustc/Verus"
+            else:
+                # Verus reports a bounded number of errors per function: an exit is only *suspicious* if its function reported
+                # fewer failures than the limit and this exit is not among them
+                notref = sorted(e for e in exits if e not in hit)
+                allow = set(meta.get("unreachable_exit", []))
+                per_fn = {}
+                for e in hit: per_fn[e.split("#")[0]] = per_fn.get(e.split("#")[0], 0) + 1
+                sus = [e for e in notref if e not in allow and per_fn.get(e.split("#")[0], 0) < 4]
+                r["exit_canary"] = {"exits": len(exits), "refuted_as_expected": len(exits) - len(notref), "not_refuted": notref,
+                                    "declared_unreachable": sorted(allow), "suspicious": sus}
+                if sus:
+                    r["status"] = "undecided"
+                    r["reason"] = "inconsistent-context-or-unreachable-exit (`assert(false)` verified before): " + ", ".join(sus)
+            if not keep:
+                try: os.remove(xpath)
+                except OSError: pass
     r["wall_s"] = round(time.time() - t0, 2)
     if not keep and r["status"] == "pass":
         try: os.remove(fpath)
@@ -964,13 +1138,14 @@ if __name__ == "__main__":
     ap.add_argument("--out", default=None, help="directory for the assembled file")
     ap.add_argument("--no-canary", action="store_true")
     ap.add_argument("--emit-only", action="store_true")
+    ap.add_argument("--define", action="append", default=[], help="enable //@ifdef NAME blocks (known-finding witness variants)")
     a = ap.parse_args()
     if a.emit_only:
-        asm = assemble(a.unit if os.path.isabs(a.unit) or os.path.exists(a.unit) else os.path.join(SPECDIR, a.unit + ".vspec"), a.repo)
+        asm = assemble(a.unit if os.path.isabs(a.unit) or os.path.exists(a.unit) else os.path.join(SPECDIR, a.unit + ".vspec"), a.repo, tuple(a.define))
         sys.stdout.write("\n".join(l.text for l in asm["lines"]) + "\n")
         sys.exit(0)
     u = a.unit if not os.path.exists(a.unit) else os.path.abspath(a.unit)
-    r = check_unit(u, repo=a.repo, workdir=a.out, keep=a.keep, canary=not a.no_canary)
+    r = check_unit(u, repo=a.repo, workdir=a.out, keep=a.keep, canary=not a.no_canary, defines=tuple(a.define))
     short = {k: v for k, v in r.items() if k not in ("function_results",)}
     print(json.dumps(short, indent=1))
     sys.exit(0 if r["status"] == "pass" else 1 if r["status"] == "violation" else 2)
